@@ -3,6 +3,7 @@ package main
 
 import (
 	"fmt"
+	"math"
 	"time"
 	"unsafe"
 
@@ -289,6 +290,136 @@ func hold(rw bool, holdOp, waitOp, otherOp string, bound3 int) schk.Scenario {
 	}
 }
 
+// kad drives a KeyedMutex[K] / KeyedRWMutex[K] of any key type through the harness's small integer
+// keys: logical key k stands for the values keys[k], which are all EQUAL under == (one key as far as
+// Go is concerned) but are spelled differently where the type allows it (+0.0 and -0.0, two strings
+// with the same text in different memory, interfaces holding those). Successive calls rotate through the
+// spellings, so a lock taken under one spelling is contended and released under another.
+type kad[K comparable] struct {
+	m    *sync2.KeyedMutex[K]
+	rwm  *sync2.KeyedRWMutex[K]
+	keys [2][]K
+	n    [2]int
+}
+
+//go:norace
+func (a *kad[K]) key(k int) K {
+	a.n[k]++
+	return a.keys[k][a.n[k]%len(a.keys[k])]
+}
+
+func (a *kad[K]) LockKey(k int) {
+	if a.rwm != nil {
+		a.rwm.LockKey(a.key(k))
+	} else {
+		a.m.LockKey(a.key(k))
+	}
+}
+func (a *kad[K]) TryLockKey(k int) bool {
+	if a.rwm != nil {
+		return a.rwm.TryLockKey(a.key(k))
+	}
+	return a.m.TryLockKey(a.key(k))
+}
+func (a *kad[K]) UnlockKey(k int) {
+	if a.rwm != nil {
+		a.rwm.UnlockKey(a.key(k))
+	} else {
+		a.m.UnlockKey(a.key(k))
+	}
+}
+func (a *kad[K]) ClearKey(k int) {
+	if a.rwm != nil {
+		a.rwm.ClearKey(a.key(k))
+	} else {
+		a.m.ClearKey(a.key(k))
+	}
+}
+func (a *kad[K]) RLockKey(k int)         { a.rwm.RLockKey(a.key(k)) }
+func (a *kad[K]) TryRLockKey(k int) bool { return a.rwm.TryRLockKey(a.key(k)) }
+func (a *kad[K]) RUnlockKey(k int)       { a.rwm.RUnlockKey(a.key(k)) }
+
+func newKad[K comparable](rw bool, k0, k1 []K) rwlocker {
+	a := &kad[K]{keys: [2][]K{k0, k1}}
+	if rw {
+		a.rwm = new(sync2.KeyedRWMutex[K])
+	} else {
+		a.m = new(sync2.KeyedMutex[K])
+	}
+	return a
+}
+
+type fkey struct {
+	F float64
+	S string
+}
+
+// keyTypes: key types other than int, each with two spellings of key x where the type has them.
+var keyTypes = []struct {
+	name string
+	mk   func(rw bool) rwlocker
+}{
+	{"float64(+0/-0)", func(rw bool) rwlocker {
+		return newKad(rw, []float64{0, math.Copysign(0, -1)}, []float64{1.5})
+	}},
+	{"string", func(rw bool) rwlocker {
+		b := []byte("key-x")
+		return newKad(rw, []string{"key-x", string(b), string(b[:3]) + "-x"}, []string{"key-y"})
+	}},
+	{"any(float64,string)", func(rw bool) rwlocker {
+		return newKad(rw, []any{0.0, math.Copysign(0, -1)}, []any{"y", string([]byte("y"))})
+	}},
+	{"struct{float64,string}", func(rw bool) rwlocker {
+		return newKad(rw, []fkey{{0, "a"}, {math.Copysign(0, -1), string([]byte("a"))}}, []fkey{{1, "a"}})
+	}},
+	{"[2]float32", func(rw bool) rwlocker {
+		nz := float32(math.Copysign(0, -1))
+		return newKad(rw, [][2]float32{{0, 0}, {nz, 0}, {0, nz}}, [][2]float32{{0, 1}})
+	}},
+	{"complex128", func(rw bool) rwlocker {
+		nz := math.Copysign(0, -1)
+		return newKad(rw, []complex128{0, complex(nz, 0), complex(0, nz)}, []complex128{1i})
+	}},
+	{"*int", func(rw bool) rwlocker {
+		p, q := new(int), new(int)
+		return newKad(rw, []*int{p}, []*int{q}) // equal pointees, different keys
+	}},
+}
+
+// typed is scenario() for a key type of keyTypes.
+func typed(ty int, rw bool, prog [][]acq, bound, raceBound int) schk.Scenario {
+	sc := crowded(rw, false, 0, prog, bound, raceBound)
+	sc.Name = "key type " + keyTypes[ty].name + "/" + sc.Name
+	sc.Body = func(s *vrt.Sched) any {
+		r := &rec{results: make([]string, len(prog))}
+		l := keyTypes[ty].mk(rw)
+		r.km = l
+		if rw {
+			r.rw = l
+		}
+		uses := [2]int{}
+		for _, p := range prog {
+			seen := [2]bool{}
+			for _, a := range p {
+				if !seen[a.k] {
+					seen[a.k] = true
+					uses[a.k]++
+				}
+			}
+		}
+		for t := range prog {
+			t := t
+			s.Spawn(fmt.Sprint("T", t), func() {
+				for _, a := range prog[t] {
+					r.run(t, a, uses[a.k] == 1)
+				}
+			})
+		}
+		return r
+	}
+	return sc
+}
+
 func main() {
 	r := ev.Start("C09")
 	var scs []schk.Scenario
@@ -355,6 +486,27 @@ func main() {
 				}
 			}
 		}
+		// other key types (keys that are equal under == but spelled differently)
+		for ty := range keyTypes {
+			one := progs(ops, false)
+			for i, a := range one {
+				for j, b := range one[i:] {
+					rb := -2
+					if ty == 0 {
+						rb = 1
+					}
+					scs = append(scs, typed(ty, rw, [][]acq{a, b}, -1, rb))
+					if a[0].k == 0 && b[0].k == 0 && (ty < 2 || r.Thorough()) {
+						for _, c := range one[i+j:] {
+							if c[0].k == 0 {
+								scs = append(scs, typed(ty, rw, [][]acq{a, b, c}, 2, -2))
+							}
+						}
+						scs = append(scs, typed(ty, rw, [][]acq{{a[0], b[0]}, {b[0], a[0]}}, 2, -2))
+					}
+				}
+			}
+		}
 		// many keys: the first use of key y happens when the map already holds 16/32/64/128/256 keys
 		for _, crowd := range []int{14, 30, 62, 126, 254, 1022, 4094} {
 			for _, pp := range [][][]acq{
@@ -390,7 +542,7 @@ func main() {
 		}
 	}
 	schk.Main(r, scs, ev.Pick(r, 45*time.Second, 1200*time.Second), func(r *ev.Run) {
-		r.Set("rule", "controlled scheduler over the instrumented sync2 package (keyed mutexes on top of the concurrent map): threads run programs of 1-2 acquisitions (LockKey, TryLockKey, RLockKey, TryRLockKey, each followed by a critical section with a scheduling point inside and the matching unlock) over keys {x,y}, on never-seen keys (first-use race) and on keys used before; 2 threads under ALL interleavings, 3 (and 4) threads under a bound or all; oracles: per-key occupancy (never two writers, never writer with reader), Try* never blocked in a stable state, Try* false only if another thread held/awaited/was acquiring the key during the call, a thread acquiring a key nobody else uses is never blocked in a stable state, no deadlock, keys free afterwards; dedicated cross-key scenarios (T0 holds x until T2 is done, T1 waits for x, T2 acquires y); ClearKey between uses; race detector inside every explored schedule of the race build")
+		r.Set("rule", "controlled scheduler over the instrumented sync2 package (keyed mutexes on top of the concurrent map); key type int throughout, and for every pair / same-key triple of single acquisitions also float64, string, interface, struct, array, complex and pointer keys where one key has several spellings that are equal under == (+0.0/-0.0, equal strings in different memory) used in rotation: threads run programs of 1-2 acquisitions (LockKey, TryLockKey, RLockKey, TryRLockKey, each followed by a critical section with a scheduling point inside and the matching unlock) over keys {x,y}, on never-seen keys (first-use race) and on keys used before; 2 threads under ALL interleavings, 3 (and 4) threads under a bound or all; oracles: per-key occupancy (never two writers, never writer with reader), Try* never blocked in a stable state, Try* false only if another thread held/awaited/was acquiring the key during the call, a thread acquiring a key nobody else uses is never blocked in a stable state, no deadlock, keys free afterwards; dedicated cross-key scenarios (T0 holds x until T2 is done, T1 waits for x, T2 acquires y); ClearKey between uses; race detector inside every explored schedule of the race build")
 		r.Assume("ClearKey is exercised only when no goroutine holds or awaits the key, as the property states")
 	})
 }
